@@ -4,6 +4,7 @@ import (
 	"context"
 	"fmt"
 	"math/big"
+	"time"
 
 	"github.com/vipnode/vipnode/v2/internal/verifapi"
 	"github.com/vipnode/vipnode/v2/internal/verifmodels/sigs"
@@ -149,3 +150,54 @@ func VerifC10Serial() {
 }
 
 var _ = fmt.Sprint
+
+// VerifC10Replies: the balance in a keep-alive reply is a snapshot. With the
+// REAL math/big code interpreted, a history of keep-alives through the real
+// pool and balance manager on the memory driver: the numbers in every earlier
+// reply (client's and host's view) still read what they read when the reply
+// was produced, after all later keep-alives.
+func VerifC10Replies() {
+	db := newVerifStore()
+	p := VerifNewPool(db, db, big.NewInt(60), 60000000000, nil) // 1 unit per second and host
+	now := time.Unix(1600000000, 0)
+	verifapi.SetNow(now)
+	cid, hid := verifapi.NodeID(0), verifapi.NodeID(1)
+	db.SetNode(store.Node{ID: store.NodeID(hid), IsHost: true, LastSeen: now, URI: "enode://" + hid + "@192.0.2.1:30303"})
+	db.SetNode(store.Node{ID: store.NodeID(cid), LastSeen: now})
+	db.AddNodeBalance(store.NodeID(cid), big.NewInt(300))
+	db.AddNodeBalance(store.NodeID(cid), big.NewInt(200))
+	if verifapi.Bool("linked") {
+		db.AddAccountNode(store.Account(verifapi.Wallet(0)), store.NodeID(cid))
+	}
+	steps := verifapi.Param("steps", 3)
+	type seen struct {
+		resp *UpdateResponse
+		want int64
+	}
+	var replies []seen
+	credit := int64(500)
+	for k := 0; k < steps; k++ {
+		dt := []int64{10, 50}[verifapi.Choose("dt", 2)]
+		now = now.Add(time.Duration(dt) * time.Second)
+		verifapi.SetNow(now)
+		db.UpdateNodePeers(store.NodeID(hid), nil, 0) // the host checks in
+		resp, err := VerifUpdate(p, context.Background(), cid, hid)
+		if err != nil || resp == nil || resp.Balance == nil {
+			verifapi.Unreachable("c10.replies.update")
+			return
+		}
+		credit -= dt // the reported host is an active peer from this keep-alive on and is paid for the gap
+		verifapi.Assert(resp.Balance.Credit.Int64() == credit, "c10.reply-balance-is-current")
+		replies = append(replies, seen{resp, credit})
+		// a host's own keep-alive reply carries its balance too
+		hresp, err := VerifUpdate(p, context.Background(), hid)
+		if err == nil && hresp != nil && hresp.Balance != nil {
+			replies = append(replies, seen{hresp, 500 - credit})
+			verifapi.Assert(hresp.Balance.Credit.Int64() == 500-credit, "c10.reply-balance-is-current")
+		}
+		for _, r := range replies {
+			verifapi.Assert(r.resp.Balance.Credit.Int64() == r.want, "c10.reply-balance-snapshot-immutable")
+		}
+	}
+	verifapi.Reach("c10.replies")
+}
